@@ -9,7 +9,7 @@ from mc.vloop import VLoop
 
 RULE = ('PROD ("programs" = route tables): for the type under test every subset of routes {a,b} x unknown-route handler present/absent, '
         'crossed with the other four types registering {nothing, everything incl. unknown handlers}; handler signatures {(), (payload), '
-        '(composite_metadata), (payload, composite_metadata), annotated custom type}; requests: 5 types x route {a, b, c, no routing '
+        '(composite_metadata), (payload, composite_metadata), annotated custom type, metadata-first orders, annotated Payload, three parameters}; requests: 5 types x route {a, b, c, no routing '
         'entry, empty tag list} x routing entry position {first, after a generic entry, after the auth entry} x authentication '
         '{no verifier; verifier with no entry / rejected / accepted simple / accepted bearer}; reference router = dict lookups; second '
         'pass: table x request product end-to-end through two real endpoints with a concurrent in-flight request on another stream; '
@@ -20,7 +20,7 @@ ASSUMPTIONS = ['a request without a routing entry or with an empty tag list may 
 BUDGET_S = {'quick': 240, 'thorough': 1800}
 
 TYPES = ('response', 'stream', 'channel', 'fire_and_forget', 'metadata_push')
-SIGS = ('none', 'payload', 'cm', 'both', 'typed')
+SIGS = ('none', 'payload', 'cm', 'both', 'typed', 'cm-first', 'ann-cm-first', 'typed-then-raw', 'ann-payload', 'three')
 ROUTES = ('a', 'b', 'c', 'noroute', 'emptytags')
 POSITIONS = ('first', 'after-generic', 'after-auth')
 AUTHS = ('no-verifier', 'missing', 'rejected', 'simple-ok', 'bearer-ok')
@@ -82,9 +82,24 @@ def build(table, ran, verifier_on, sig):
         elif s == 'both':
             async def h(payload, composite_metadata):
                 return rec(payload=payload, composite_metadata=composite_metadata)
-        else:
+        elif s == 'typed':
             async def h(value: Typed, meta: CompositeMetadata):
                 return rec(value=value, meta=meta)
+        elif s == 'cm-first':  # parameter order must not matter: each parameter is bound by its own name / annotation
+            async def h(composite_metadata, payload):
+                return rec(composite_metadata=composite_metadata, payload=payload)
+        elif s == 'ann-cm-first':
+            async def h(meta: CompositeMetadata, request: Payload):
+                return rec(meta=meta, request=request)
+        elif s == 'typed-then-raw':
+            async def h(value: Typed, raw: Payload):
+                return rec(value=value, raw=raw)
+        elif s == 'ann-payload':
+            async def h(request: Payload):
+                return rec(request=request)
+        else:
+            async def h(meta: CompositeMetadata, value: Typed, payload):
+                return rec(meta=meta, value=value, payload=payload)
         return h
 
     tut = table['type']
@@ -224,7 +239,12 @@ def direct_case(table, sig, rtype, route, position, auth, part):
         want_sig = sig if (rtype == table['type'] and name == 'a') else ('both' if rtype == table['type'] else 'payload')
         want = {'none': {}, 'payload': {'payload': ('payload', (b'body', md))}, 'cm': {'composite_metadata': ('cm', nitems)},
                 'both': {'payload': ('payload', (b'body', md)), 'composite_metadata': ('cm', nitems)},
-                'typed': {'value': ('typed', b'body'), 'meta': ('cm', nitems)}}[want_sig]
+                'typed': {'value': ('typed', b'body'), 'meta': ('cm', nitems)},
+                'cm-first': {'payload': ('payload', (b'body', md)), 'composite_metadata': ('cm', nitems)},
+                'ann-cm-first': {'request': ('payload', (b'body', md)), 'meta': ('cm', nitems)},
+                'typed-then-raw': {'value': ('typed', b'body'), 'raw': ('payload', (b'body', md))},
+                'ann-payload': {'request': ('payload', (b'body', md))},
+                'three': {'meta': ('cm', nitems), 'value': ('typed', b'body'), 'payload': ('payload', (b'body', md))}}[want_sig]
         if rtype == 'metadata_push':
             want = {k: (v if v[0] != 'payload' else ('payload', (b'body', md))) for k, v in want.items()}
         if args != want:
